@@ -127,7 +127,7 @@ func (d *Driver) RunFsck(where string, closed bool) {
 	fs := fsOf()
 	files := fs.Files()
 	disk := Fsck(fsckInput{Files: files, Primary: d.Cfg.Primary})
-	d.Probes["fsck"]++
+	d.cprobe("fsck")
 	if len(disk.Errs) > 0 {
 		d.fail("fsck/disk", "%s: on-disk structures inconsistent (table rebuilt by scanning the log): %s", where, strings.Join(disk.Errs, "; "))
 		return
@@ -207,3 +207,46 @@ func (d *Driver) compareContent(class, where string, r *FsckResult) {
 }
 
 var _ = fmt.Sprintf
+
+// RunFsckLoose is RunFsck for runs without a sequential model (concurrent
+// engines): structures must be consistent and the two table sources must
+// agree, but contents are not compared with a model.
+func (d *Driver) RunFsckLoose(where string, closed bool) {
+	fs := fsOf()
+	files := fs.Files()
+	disk := Fsck(fsckInput{Files: files, Primary: d.Cfg.Primary})
+	d.cprobe("fsck")
+	if len(disk.Errs) > 0 {
+		d.fail("fsck/disk", "%s: on-disk structures inconsistent (table rebuilt by scanning the log): %s", where, strings.Join(disk.Errs, "; "))
+		return
+	}
+	if d.St == nil || d.Cfg.Bits > 17 {
+		return
+	}
+	var live []uint64
+	if closed {
+		sb, ok := files[indexPath+".buckets"]
+		if !ok {
+			d.fail("fsck/live", "%s: no bucket snapshot file after Close", where)
+			return
+		}
+		live = SnapshotTable(sb)
+	} else {
+		tb := d.St.Index().VerifBuckets()
+		live = make([]uint64, len(tb))
+		for i, p := range tb {
+			live[i] = uint64(p)
+		}
+	}
+	lv := Fsck(fsckInput{Files: files, Primary: d.Cfg.Primary, Live: live})
+	if len(lv.Errs) > 0 {
+		d.fail("fsck/live", "%s: bucket table (closed=%v) inconsistent with files: %s", where, closed, strings.Join(lv.Errs, "; "))
+		return
+	}
+	for b, raw := range lv.Lists {
+		if !bytes.Equal(disk.Lists[b], raw) {
+			d.fail("fsck/table-vs-rescan", "%s: bucket %d: live table and log rescan resolve to different record lists", where, b)
+			return
+		}
+	}
+}
